@@ -990,4 +990,83 @@ def acceptVerdict (flags qd an ns ar : Nat) : Nat :=
 /-- `rejectInPlace`: rcode of the bare-header rejection (opcode echoed, QR set). -/
 def rejectRcode (verdict : Nat) : Nat := if verdict = 2 then 4 else 1
 
+/-! ### hostsfile (`middleware/hostsfile/hostsfile.go`; labels = the question name as the client spelled it) -/
+
+abbrev Str := List Char
+
+def lowerChar (c : Char) : Char := if 'A' ≤ c ∧ c ≤ 'Z' then Char.ofNat (c.toNat + 32) else c
+
+def joinDots : List Str → Str
+  | [] => []
+  | [l] => l
+  | l :: t => l ++ '.' :: joinDots t
+
+/-- presentation form (escape-free labels): labels joined by dots, trailing dot; the root is "." -/
+def present (labels : List Str) : Str := if labels = [] then ['.'] else joinDots labels ++ ['.']
+
+/-- `lookupKey` (decoded body): drop the trailing dot, lower ASCII A–Z. -/
+def lookupKey (name : Str) : Str :=
+  let n := if name.getLast? = some '.' then name.dropLast else name
+  n.map lowerChar
+
+/-- `dnsname.AppendFoldedKey` (wire body): every label lowered, dots between, no trailing dot. -/
+def foldedKey (labels : List Str) : Str := joinDots (labels.map (·.map lowerChar))
+
+structure HostEntry where
+  key : Str
+  a : Bool
+  aaaa : Bool
+  cname : Bool
+deriving DecidableEq, Repr
+
+structure Wildcard where
+  /-- the pattern without its leading "*." -/
+  suffix : Str
+  v4 : Bool
+  v6 : Bool
+deriving DecidableEq, Repr
+
+structure HostsDB where
+  hosts : List HostEntry
+  wildcards : List Wildcard
+  /-- reverse names (exact spelling the case-sensitive reverse-IP parser accepts) that have PTRs -/
+  ptrs : List Str
+deriving DecidableEq, Repr
+
+inductive HostsOut where
+  | next
+  /-- authoritative NOERROR reply with these answer types ([] = NODATA) -/
+  | reply (types : List Nat)
+deriving DecidableEq, Repr
+
+/-- `matchWildcard "*.suffix" name` -/
+def matchWildcard (suffix name : Str) : Bool :=
+  name == suffix || (('.' :: suffix).isSuffixOf name)
+
+/-- `lookupKeyed`: the database decision both bodies share, from a folded key. -/
+def lookupKeyed (db : HostsDB) (key : Str) (qtype : Nat) : HostsOut :=
+  let entry := db.hosts.find? (·.key == key)
+  if qtype = 1 then
+    if (entry.map (·.a)).getD false then .reply [1]
+    else if db.wildcards.any (fun w => matchWildcard w.suffix key && w.v4) then .reply [1] else .next
+  else if qtype = 28 then
+    if (entry.map (·.aaaa)).getD false then .reply [28]
+    else if db.wildcards.any (fun w => matchWildcard w.suffix key && w.v6) then .reply [28] else .next
+  else if qtype = 5 then
+    if (entry.map (·.cname)).getD false then .reply [5] else .next
+  else
+    if entry.isSome then .reply []
+    else if db.wildcards.any (fun w => matchWildcard w.suffix key) then .reply [] else .next
+
+/-- `lookupPTR`: the reverse-IP parser reads the spelling it is given. -/
+def lookupPTR (db : HostsDB) (name : Str) : HostsOut := if db.ptrs.contains name then .reply [12] else .next
+
+/-- `Hostsfile.ServeDNS`, decoded body: `lookup(db, q.Name, q.Qtype)`. -/
+def hostsMsg (db : HostsDB) (labels : List Str) (qtype : Nat) : HostsOut :=
+  if qtype = 12 then lookupPTR db (present labels) else lookupKeyed db (lookupKey (present labels)) qtype
+
+/-- `Hostsfile.serveWire`: PTR keeps the client's spelling, everything else the folded key. -/
+def hostsWire (db : HostsDB) (labels : List Str) (qtype : Nat) : HostsOut :=
+  if qtype = 12 then lookupPTR db (present labels) else lookupKeyed db (foldedKey labels) qtype
+
 end SdnsVerif.Model.WirePath
